@@ -48,6 +48,7 @@ pub fn render(v: &Value) -> Value {
     "c2" => json!({"B": {"regex": "abc"}}),
     "c4" => json!({"A": {"kind": "identifier", "nthChild": {"position": 1, "ofRule": {"matches": "U9"}}}}),
     "c5" => json!({"A": {"any": [{"kind": "identifier"}, {"matches": "U9"}]}}),
+    "c6" => json!({"A": {"pattern": "$C"}, "C": {"pattern": "$D"}}),
     _ => json!({"A": {"pattern": "$C"}}),
   };
   let sub = |src: &str| json!({"substring": {"source": src}});
@@ -70,6 +71,7 @@ pub fn render(v: &Value) -> Value {
     "f3" => json!("bar($Z)"),
     "f4" => json!({"template": "bar($X)"}),
     "f5" => json!({"template": "bar($A)"}),
+    "f7" => json!("bar($C, $D)"),
     _ => json!("bar($C)"),
   };
   let rews = match s("r") {
@@ -105,6 +107,7 @@ fn expected_fix(v: &Value) -> Value {
     "f1" | "f5" => json!("bar(abc)"),
     "f2" | "f4" => json!(format!("bar({x})")),
     "f6" => json!("bar(abc)"),
+    "f7" => json!("bar(abc, abc)"),
     _ => json!("bar()"),
   }
 }
